@@ -290,6 +290,19 @@ def _cli_shard(d, res):
     line = [ln for ln in txt.splitlines() if ln.startswith("Quality-trimmed:")]
     if line and want not in line[0]:
         res["viol"].append(("cli-count", f"text report quality-trimmed line {line} does not state {want}", case))
+    # the same figure when two workers process several chunks each (virtual scheduler, fair default schedule)
+    from .. import vmp
+
+    argv2 = ["-j", "2", "--buffer-size", "1500"] + argv
+    sched, r2, exc = vmp.run(lambda: clih.run_cli(argv2), policy="fair")
+    if r2 is None or sched.deadlock or r2.exit != 0:
+        res["viol"].append(("cli-2cores", f"run with two cores failed: {getattr(r2, 'exit', None)} {exc!r} deadlock={sched.deadlock}", case))
+    else:
+        bp2 = clih.read_json(js).get("basepair_counts", {})
+        got2 = (bp2.get("quality_trimmed"), bp2.get("quality_trimmed_read1"), bp2.get("quality_trimmed_read2") if paired else None)
+        if got2 != (total, removed[1], removed[2] if paired else None):
+            res["viol"].append(("cli-count", f"with two cores: JSON quality_trimmed={got2[0]} (R1 {got2[1]}, R2 {got2[2]}) but {total} "
+                                f"(R1 {removed[1]}, R2 {removed[2]}) bases were removed", case))
     res["samples"].append(dict(argv=frag, first_reads=recs[7:9], n_reads=len(recs), removed=total))
     clih.rmtree(wd)
 
